@@ -18,6 +18,7 @@ def c02(chk, tier):
     lalr.r_reduce(P(), chk)
     rules_dispatch.r_dispatch(P(), chk, "C02")
     rules_dispatch.r_linestrip(P(), chk)
+    rules_wrapper.r_metawindow(P(), chk)      # a body paragraph must not be swallowed as metadata after a blank line
     rules_dispatch.r_sibling_outline(P(), chk)
 
 
@@ -40,11 +41,13 @@ def c04(chk, tier):
     disp = rules_dispatch.r_dispatch(P(), chk, "C04")
     rules_dispatch.r_dispatch_text(P(), chk, disp)
     rules_sink.r_sink(P(), chk, prop="C04")
+    rules_sink.r_sink_provenance(P(), chk)
     rules_sink.r_rawtoken(P(), chk)
     rules_esc.r_escaper_complete(P(), chk, formats=("html", "odf", "latex"))
     rules_level.r_level(P(), chk)
     rules_sink.r_sink_latex(P(), chk)
     rules_balance.r_balance(P(), chk)
+    rules_anchor.r_listbound(P(), chk, "R-NOTELIST")      # no note text is lost from the relocated lists
 
 
 def c06(chk, tier):
@@ -118,6 +121,7 @@ def c15(chk, tier):
     rules_misc.r_link(P(), chk)
     rules_misc.r_mate_guard(P(), chk)
     rules_misc.r_span_split(P(), chk)
+    rules_mem.r_stalelen(P(), chk)         # token spans are cut from the text the length was read from
     rules_mem.type_field_invariant(P(), chk)
 
 
@@ -163,11 +167,13 @@ def c10(chk, tier):
     chk.explanation = "Static: R-ANCHOR anchor-family derivation agreement (reaching definitions), one label function, numbering stacks."
     rules_anchor.r_anchor(P(), chk)
     rules_anchor.r_anchor_seed(P(), chk)
+    rules_anchor.r_anchor_nolabels(P(), chk)
 
 
 def c08(chk, tier):
     chk.explanation = "Static: R-SINK escaping discipline at output sinks of the XML writers; escaper completeness."
     rules_sink.r_sink(P(), chk)
+    rules_sink.r_sink_provenance(P(), chk)
     rules_sink.r_rawtoken(P(), chk)
     rules_esc.r_escaper_complete(P(), chk)
     rules_esc.r_escpair(P(), chk)
